@@ -295,3 +295,61 @@ def run(ctx):
     finally:
         # leaf helpers this property's rules treat by name, pinned as complete path tables
         check_leaves(ctx, "C12.K", ['bank.get_flag', 'bank.update_flag'])
+
+
+_run_pre_sunset = run
+
+
+def run(ctx):
+    try:
+        _run_pre_sunset(ctx)
+    finally:
+        _sunset_flags(ctx)
+
+
+def _sunset_flags(ctx):
+    """C12.R5: the risk admin's sunset powers exist only on banks the group admin opted in.  Every `update_flag(true,
+    TOKENLESS_REPAYMENTS_COMPLETE)` in the program is reachable only over the true edge of `get_flag(TOKENLESS_REPAYMENTS_ALLOWED)` of
+    the same bank; TOKENLESS_REPAYMENTS_ALLOWED itself is set only by Bank::configure (group admin, not on frozen banks: R3); the purge
+    instruction requires the COMPLETE flag."""
+    prog = ctx.prog
+    uf = prog.find_fns({"name": "update_flag", "key_re": r"state::bank::\{impl#\d+\}::update_flag$"})
+    if len(uf) != 1:
+        ctx.missing("C12.R5", "Bank::update_flag")
+        return
+    uf = uf[0]
+    n = 0
+    setters_allowed = []
+    for k, f in sorted(prog.fns.items()):
+        if f.info["crate"] != "marginfi":
+            continue
+        for c in f.calls():
+            if c.key != uf.key or len(c.args) < 3:
+                continue
+            fl = ctx.slicer.operand(f, c.args[2], at=c.block)
+            if fl.has_const("TOKENLESS_REPAYMENTS_ALLOWED"):
+                setters_allowed.append(f.key)
+            if not fl.has_const("TOKENLESS_REPAYMENTS_COMPLETE"):
+                continue
+            n += 1
+            edges = [(sw, tgt) for (sw, tgt, truth) in flag_edges(ctx, f, "TOKENLESS_REPAYMENTS_ALLOWED") if truth is True]
+            ok = False
+            why = "no get_flag(TOKENLESS_REPAYMENTS_ALLOWED) branch"
+            for e in edges:
+                if c.block in blocks_only_via(f, e):
+                    ok = True
+            if edges and not ok:
+                why = "the flag update is reachable without passing the ALLOWED edge"
+            val = ctx.slicer.operand(f, c.args[1], at=c.block)
+            ctx.inst("C12.R5", "complete-only-when-allowed/" + f.name, ok, "%s: TOKENLESS_REPAYMENTS_COMPLETE is set only on a bank whose TOKENLESS_REPAYMENTS_ALLOWED flag is set (the group admin's opt-in)" % f.name,
+                     "ok" if ok else why, c.loc)
+    ctx.floor("C12.R5", 2)
+    ok = bool(setters_allowed) and all(re.search(r"state::bank::\{impl#\d+\}::configure$", k) for k in setters_allowed)
+    ctx.inst("C12.R5", "allowed-set-only-by-configure", ok, "TOKENLESS_REPAYMENTS_ALLOWED is passed to update_flag only by Bank::configure (group admin, unfrozen banks)", sorted(set(setters_allowed)), None)
+    ix = ctx.am.ix("purge_deleverage_balance")
+    if ix is None or ix["struct"] is None:
+        ctx.missing("C12.R5", "purge_deleverage_balance")
+        return
+    bf = ix["struct"].field("bank")
+    preds = [c.expr.replace(" ", "") for c in (bf.cons if bf else []) if c.kind == "pred"]
+    ctx.inst("C12.R5", "purge-requires-complete", "bank.load()?.get_flag(TOKENLESS_REPAYMENTS_COMPLETE)" in preds, "purging a deposit requires the bank's TOKENLESS_REPAYMENTS_COMPLETE flag", preds, "%s:%s" % (ix["struct"].file, bf.line if bf else "?"))
